@@ -32,7 +32,7 @@ def main() -> int:
         for item in items:
             faulthandler.dump_traceback_later(per_case, exit=True)
             try:
-                r = mod.run_case(item['case'])
+                r = runner.run_case_sanitized(mod, item['case'])
             except BaseException as e:  # harness error: reported, never a verdict
                 if isinstance(e, KeyboardInterrupt):
                     raise
